@@ -3,7 +3,11 @@
 
 package flate
 
-import "io"
+import (
+	"io"
+
+	"github.com/intel/fastgo/compress/flate/internal/deflate"
+)
 
 // VerifReaderCounters is a snapshot of the bookkeeping counters of a Reader
 // created by NewReader (verification hook, build tag `verif` only).
@@ -44,3 +48,9 @@ func VerifReaderState(r io.Reader) (c VerifReaderCounters, ok bool) {
 	}
 	return c, true
 }
+
+// VerifEvent re-exports the leaf event record of the Writer (see Writer.VerifRecord).
+type VerifEvent = deflate.VerifEvent
+
+// VerifWriterCounters re-exports the counter snapshot of the Writer (see Writer.VerifState).
+type VerifWriterCounters = deflate.VerifWriterCounters
